@@ -482,9 +482,9 @@ LAW(H_tree_history, RC, 20000, 600000, 220, "a history in which the validity of 
         c.desc << "addSon(" << a << "," << b << ")"; t.obs.addSon(t.N[a], t.N[b]); t.noteEdge(a, b, -1, false); break;
       case 3: {  // setFather(b := son, a := father) without object
         if (!m.directed) { c.desc << "nop"; break; }
-        c.desc << "setFather(" << b << "," << a << ")";
         vector<U> fs = m.in(b);
-        if (fs.size() > 1) { CHECK(throwsBpp([&] { t.obs.setFather(t.N[b], t.N[a]); }), "setFather on a node with " << fs.size() << " fathers did not raise"); c.desc << "!"; break; }
+        if (fs.size() > 1) { c.desc << "nop"; break; }  // "the" father to replace is not defined: not generated
+        c.desc << "setFather(" << b << "," << a << ")";
         t.obs.setFather(t.N[b], t.N[a]); if (fs.size() == 1) m.eraseLink(fs[0], b); t.noteEdge(a, b, -1, false); break; }
       case 4: {  // law 4: setFather / addSon with an edge object
         if (!m.directed) { c.desc << "nop"; break; }
@@ -550,7 +550,6 @@ LAW(H_tree_history, RC, 20000, 600000, 220, "a history in which the validity of 
           CHECK(throwsBpp([&] { t.g->getSubtreeNodes(a); }), "getSubtreeNodes on an invalid tree did not raise: " << m.show());
           CHECK(sorted(t.g->getSons(a)) == m.out(a) && t.g->hasFather(a) == !m.in(a).empty(), "getSons/hasFather of " << a << " in " << m.show());
           if (m.in(a).size() == 1) CHECK(t.g->getFatherOfNode(a) == m.in(a)[0], "getFatherOfNode(" << a << ") in " << m.show());
-          else CHECK(throwsBpp([&] { t.g->getFatherOfNode(a); }), "getFatherOfNode of a node with " << m.in(a).size() << " fathers did not raise");
         }
         break; }
     }
